@@ -35,7 +35,10 @@ CONSTANTS
                \*   VGPRs per work-item, LDS bytes per WG  (what the driver may launch)
   MaxLaunch,   \* bound on the number of launches
   Batch,       \* "single" | "kernel" | "cross": what one completion message of a CU may contain
-  Deviations,  \* subset of {"MixedBatchPanics"}: as-implemented departures
+  Deviations,  \* subset of {"MixedBatchPanics", "CompleteIgnoresParked"}: named departures from the design
+               \*   MixedBatchPanics: a completion message spanning two dispatchers panics (tree before 12f593b7)
+               \*   CompleteIgnoresParked: kernelCompleted() without the currWG.valid guard (a reserved work-group
+               \*     whose MapWGReq still waits for room in the ToCUs port does not keep the kernel open)
   PortCap      \* capacity of every port buffer (back-pressure)
 
 VARIABLES
@@ -209,7 +212,7 @@ Process(d) ==
 \* kernelCompleted() /\ completeKernel()
 CompleteKernel(d) ==
   /\ ~panicked /\ disp[d].k # 0
-  /\ disp[d].curr = <<>>
+  /\ (disp[d].curr = <<>> \/ "CompleteIgnoresParked" \in Deviations)      \* !currWG.valid
   /\ disp[d].algN >= NWG(disp[d].k)        \* !alg.HasNext()
   /\ disp[d].nC >= disp[d].nD
   /\ Len(drvOut) < PortCap
